@@ -196,6 +196,9 @@ class Multiplication:
       to_keep = links_signatures[i:i+diff+1]
       links = self.segment(sn).dovetails_of_end(end_type).copy()
       for l in links:
+        # a link of the segment end with itself (hairpin) is listed twice
+        if not l.is_connected():
+          continue
         l_sig = repr(l.other_end(gfapy.SegmentEnd(sn, end_type)))
         if l_sig not in to_keep:
           l.disconnect()
